@@ -24,7 +24,14 @@ RULE = (
     "stage is feasible and bounded and (same-sense twins) the twin's constraint is NEEDED in the stage optimising the other twin "
     "(without it the second solver's optimum moves or the stage is unbounded); and all-maximise problems with a user bound of 0 on "
     "one criterion (every other stage is the zero vector). At least 30 % of the cases have an empty stage (exactly one minimise "
-    "criterion, or a zero bound). b reaches SIMUS and the model exactly as the user wrote it (None / python floats; rationals of those floats). Per case: (i) every PuLP problem object "
+    "criterion, or a zero bound). MULTI-STEP HISTORIES on a caller-owned b: b is a NUMPY array (an object array holding None for the "
+    "unspecified entries; a quarter of these drawn freely, some fully specified object / float64 arrays) and the SAME array object is "
+    "first handed to one or two evaluate() calls on OTHER decision matrices of the same criteria (columns scaled by 0.3..3, own "
+    "number of alternatives; by the same SIMUS instance or another one), then to the judged evaluation: every clause below applies "
+    "with b as the user wrote it, each stage program's right-hand sides must be the supplied b / the column maximum or minimum of the "
+    "judged matrix (exact, all cases), the caller's array must be unchanged after every call, and programs, lp_values and ranking are "
+    "compared with a fresh instance given a fresh list (re-drawn until every stage program of the judged matrix is feasible and bounded). "
+    "b reaches SIMUS and the model exactly as the user wrote it (None / python floats; rationals of those floats). Per case: (i) every PuLP problem object "
     "(sense, objective, each constraint's coefficients / sense / rhs, variable bounds) against the Lean model's stageLP, exactly; "
     "(ii) lp_values[i] against the value of the variable named x{i} read from the solved problem; (iii) every stage solution "
     "checked for feasibility (exact rational arithmetic) and optimality through the PROVED certificate checker (Lean certCheck, "
@@ -262,6 +269,59 @@ def zero_b_case(rng, m=None):
     return case
 
 
+# ---- multi-step histories on a caller-owned b: the SAME numpy array handed to several evaluate() calls
+
+
+def _prior_matrix(rng, case):
+    """another decision matrix for the same criteria (same objectives, its own number of alternatives): every criterion's
+    values are those of the case's column times a factor of its own (0.3 .. 3), so its column maxima / minima differ
+    markedly from the case's - bounds computed from it are either tighter or looser than the case's own"""
+    A, fam = case["matrix"], case["family"]
+    m, n = len(A), len(case["objectives"])
+    mp = rng.randint(11, 20) if rng.random() < 0.3 else rng.randint(2, 10)
+    facs = [rng.choice([0.3, 0.5, 0.6, 1.7, 2.0, 3.0, rng.uniform(0.3, 0.7), rng.uniform(1.5, 3.0)]) for _ in range(n)]
+    out = []
+    for _ in range(mp):
+        row = []
+        for j in range(n):
+            v = A[rng.randrange(m)][j] * facs[j] * rng.uniform(0.8, 1.0)
+            if fam == "int":
+                v = max(1, int(round(v)))
+            elif fam == "dyadic":
+                v = max(1, int(round(v * 8))) / 8.0
+            row.append(v)
+        out.append(row)
+    # the extreme of every column is the scaled extreme of the case's column
+    for j in range(n):
+        col = [r[j] for r in A]
+        ext = (max(col) if case["objectives"][j] == 1 else min(col)) * facs[j]
+        ext = max(1, int(round(ext))) if fam == "int" else (max(1, int(round(ext * 8))) / 8.0 if fam == "dyadic" else float(ext))
+        out[rng.randrange(mp)][j] = ext
+    return out
+
+
+def history_case(rng, bmode=None, m=None):
+    """the optional right-hand side is a NUMPY array owned by the caller (an object array holding None for the unspecified
+    entries; now and then a fully specified one) and the SAME array object is handed to one or two earlier evaluate() calls on
+    OTHER decision matrices (same criteria) before the evaluation that is judged - by the same SIMUS instance or by another
+    one.  The judged evaluation is held to the property as any other (b as the user wrote it), the caller's array must
+    come back unchanged, and the result must be the one a fresh evaluation with a fresh b gives.  Re-drawn until every
+    stage program of the judged matrix is feasible and bounded."""
+    case = None
+    for _ in range(12):
+        bm = bmode or rng.choice(["partial", "partial", "partial", "full"])
+        case = one_case(rng, m=m, bmode=bm, n=rng.randint(3, 5) if rng.random() < 0.7 else None)
+        if all(_opt(oracle_lp(case, z))[0] == 0 for z in range(len(case["objectives"]))):
+            break
+    same = rng.random() < 0.5
+    steps = []
+    for _ in range(rng.choice([1, 1, 2])):
+        steps.append({"matrix": _prior_matrix(rng, case), "rank_by": case["rank_by"] if same else rng.choice([1, 2])})
+    case["history"] = {"b_as": "object-array" if case["bmode"] == "partial" or rng.random() < 0.5 else "float-array",
+                       "same_instance": same, "prior": steps}
+    return case
+
+
 def _has_empty_stage(c):
     """problems with a stage whose only feasible/optimal point is the zero vector: exactly one minimise criterion (its stage
     has only upper bounds left), or a user bound of 0 on a maximise criterion"""
@@ -282,6 +342,9 @@ def gen(ctx):
         cases.append(dup_case(rng, mode=DUP_MODES[i % len(DUP_MODES)]))
     for _ in range(ctx.n(4, 40)):
         cases.append(zero_b_case(rng))
+    # the caller's own numpy b (None entries) reused over several evaluate() calls on different decision matrices
+    for i in range(ctx.n(12, 120)):
+        cases.append(history_case(rng, bmode="partial" if i % 4 else None))
     # quota: at least 30 % of the cases have an empty stage (exactly one minimise criterion / zero bound)
     tries = 0
     while sum(1 for c in cases if _has_empty_stage(c)) < 0.3 * len(cases) and tries < 10 * N:
@@ -311,7 +374,8 @@ def gen(ctx):
 def search_gen(ctx):
     rng = ctx.rng
     return ([one_case(rng) for _ in range(120)] + [dup_case(rng, mode=DUP_MODES[i % len(DUP_MODES)]) for i in range(48)]
-            + [zero_b_case(rng) for _ in range(12)] + [one_case(rng, n=rng.randint(3, 5), n_min=1) for _ in range(20)])
+            + [zero_b_case(rng) for _ in range(12)] + [one_case(rng, n=rng.randint(3, 5), n_min=1) for _ in range(20)]
+            + [history_case(rng, bmode="partial" if i % 4 else None) for i in range(40)])
 
 
 # ----------------------------------------------------------------------------- the property's own LP (Python oracle)
@@ -396,40 +460,77 @@ def _flt(x):
     return None if x is None else float(x)
 
 
+def _stages(e_, m):
+    out = []
+    for s in e_.stages:
+        out.append({
+            "status": str(s.lp_status),
+            "objective": _flt(s.lp_objective),
+            "variables": [str(v) for v in s.lp_variables],
+            "values": [_flt(v) for v in list(s.lp_values)],
+            "problem": _problem(s.lp_problem, m),
+        })
+    return out
+
+
+def _entry(v):
+    """an entry of the caller's b array as plain data: None stays None"""
+    return None if v is None else float(v)
+
+
 def observe(case):
     from skcriteria.agg.simus import SIMUS
     import skcriteria as skc
 
     with M.quiet():
         # whole-number cases are handed over as an int64 decision matrix (every criterion int64), the others as float64
-        A = np.array(case["matrix"], dtype=np.int64 if case.get("dtype") == "int64" else float)
+        dt = np.int64 if case.get("dtype") == "int64" else float
+        A = np.array(case["matrix"], dtype=dt)
         m, n = A.shape
         dm = skc.mkdm(A, list(case["objectives"]))
         hints = [highs(oracle_lp(case, z)) for z in range(n)]
         o = {"hints": hints, "dm_dtypes": sorted(set(str(t) for t in dm.dtypes))}
+        hist = case.get("history")
+        b_arg = case["b"]
+        dec = SIMUS(rank_by=case["rank_by"])
+        if hist:
+            # the caller's own array; the earlier evaluations of the history get the SAME object
+            b_arg = np.array(case["b"], dtype=object if hist["b_as"] == "object-array" else float)
+            o["prior"] = []
+            for step in hist["prior"]:
+                dmp = skc.mkdm(np.array(step["matrix"], dtype=dt), list(case["objectives"]))
+                d = dec if hist["same_instance"] else SIMUS(rank_by=step["rank_by"])
+                try:
+                    rp = d.evaluate(dmp, b=b_arg)
+                    o["prior"].append({"status": [str(s.lp_status) for s in rp.e_.stages]})
+                except Exception as e:
+                    o["prior"].append({"err": G.err_name(e)})
+                o["prior"][-1]["b_after"] = [_entry(v) for v in b_arg]
         try:
-            res = SIMUS(rank_by=case["rank_by"]).evaluate(dm, b=case["b"])
+            res = dec.evaluate(dm, b=b_arg)
         except Exception as e:
             o["err"] = G.err_name(e)
             o["msg"] = str(e)[:200]
             return o
+        finally:
+            if hist:
+                o["b_after"] = [_entry(v) for v in b_arg]
+                o["b_after_dtype"] = str(b_arg.dtype)
         e_ = res.e_
-        o["stages"] = []
-        for s in e_.stages:
-            vals = [_flt(v) for v in list(s.lp_values)]
-            o["stages"].append({
-                "status": str(s.lp_status),
-                "objective": _flt(s.lp_objective),
-                "variables": [str(v) for v in s.lp_variables],
-                "values": vals,
-                "problem": _problem(s.lp_problem, m),
-            })
+        o["stages"] = _stages(e_, m)
         for k in ("stages_results", "method_1_score", "method_2_score", "tita_j_p", "tita_j_d", "dominance"):
             o[k] = np.asarray(e_[k], dtype=float).tolist()
         # one dominance table per criterion / stage, in criterion order (kept as a list of tables: its length is observed)
         o["dominance_by_criteria"] = [np.asarray(t, dtype=float).tolist() for t in e_["dominance_by_criteria"]]
         o["rank"] = [int(r) for r in res.rank_]
         o["rank_by"] = int(e_.rank_by)
+        if hist:
+            # the same evaluation from scratch: a new instance, a new b (a plain list, as the user wrote it)
+            try:
+                fr = SIMUS(rank_by=case["rank_by"]).evaluate(dm, b=None if case["b"] is None else list(case["b"]))
+                o["fresh"] = {"stages": _stages(fr.e_, m), "rank": [int(r) for r in fr.rank_]}
+            except Exception as e:
+                o["fresh"] = {"err": G.err_name(e)}
         return o
 
 
@@ -544,6 +645,19 @@ def judge(case, obs, replies):
     def corr(what, expected=None, observed=None):
         out.append({"kind": "correspondence", "what": what, "expected": expected, "observed": observed})
 
+    # ---- PROPERTY (histories): the b vector belongs to the caller - its unspecified entries stay unspecified, its values stay
+    # what they were, whatever evaluations it was handed to; otherwise a later evaluation no longer solves the programs of
+    # the b the user wrote
+    hist = case.get("history")
+    if hist:
+        afters = [(f"earlier evaluation {i}", st.get("b_after")) for i, st in enumerate(obs.get("prior", []))] + [("the evaluation", obs.get("b_after"))]
+        for where, after in afters:
+            if after != [_entry(v) for v in case["b"]]:
+                prop(f"the caller's b array ({hist['b_as']}) was modified by evaluate() ({where}, "
+                     f"{'same' if hist['same_instance'] else 'another'} SIMUS instance): unspecified entries are no longer unspecified",
+                     case["b"], after)
+                break
+
     if "err" in obs:
         if _in_domain(obs):
             prop(f"SIMUS raised {obs['err']} on a matrix whose stage programs are all feasible and bounded: {obs.get('msg')}")
@@ -577,6 +691,50 @@ def judge(case, obs, replies):
         bad_vars = [v for v in p["variables"] if not (v[1] == 0 and v[2] is None and v[3] == "Continuous")]
         if bad_vars or sorted(v[0] for v in p["variables"]) != sorted(names) or ms["lower"] != "0/1" or ms["upper"] is not None:
             corr(f"stage {z}: variable set / bounds, model vs PuLP problem", "x0..x%d, 0 <= x, continuous" % (m - 1), p["variables"][:4])
+
+    # ---- PROPERTY: the bound of every other criterion in the stage program is the supplied b, else the maximum / minimum of
+    # THIS matrix' column (exact: the program object holds the float it was given)
+    for z in range(n):
+        pcs, ocs = obs["stages"][z]["problem"]["constraints"], oracle_lp(case, z)["constraints"]
+        if len(pcs) != len(ocs):
+            continue  # reported above
+        bad = next((r for r, (pc, oc) in enumerate(zip(pcs, ocs)) if -pc["constant"] != oc["rhs"]), None)
+        if bad is not None:
+            k = ocs[bad]["crit"]
+            given = case["b"] is not None and case["b"][k] is not None
+            prop(f"stage {z}: the bound of criterion {k} in the stage program is not "
+                 + ("the supplied b" if given else "the column " + ("maximum" if case["objectives"][k] == 1 else "minimum") + " of the decision matrix")
+                 + (" (b reused from an earlier evaluation)" if hist else ""),
+                 ocs[bad]["rhs"], -pcs[bad]["constant"])
+            break
+
+    # ---- histories: the evaluation gives what a fresh instance with a fresh b gives (same programs; same solution, scores'
+    # ranking) - a difference is a lead, the property clauses above and below decide
+    if hist and "fresh" in obs:
+        fr = obs["fresh"]
+        if "err" in fr or len(fr["stages"]) != n:
+            corr("history vs fresh evaluation: the fresh evaluation failed / has another number of stages", n, fr.get("err", len(fr.get("stages", []))))
+        else:
+            for z in range(n):
+                a, f_ = obs["stages"][z], fr["stages"][z]
+                pa, pf = a["problem"], f_["problem"]
+                if (pa["sense"], pa["objective"], [(c["sense"], c["constant"], c["coef"]) for c in pa["constraints"]]) != \
+                        (pf["sense"], pf["objective"], [(c["sense"], c["constant"], c["coef"]) for c in pf["constraints"]]):
+                    corr(f"stage {z}: the program after a history on the caller's b differs from the program of a fresh evaluation",
+                         [-c["constant"] for c in pf["constraints"]], [-c["constant"] for c in pa["constraints"]])
+                    break
+                if a["status"] != f_["status"]:
+                    corr(f"stage {z}: status after a history differs from a fresh evaluation", f_["status"], a["status"])
+                    break
+                va, vf = a["values"], f_["values"]
+                if a["status"] == "Optimal" and all(v is not None for v in va + vf):
+                    sc = max([1.0] + [abs(v) for v in vf])
+                    if any(abs(x - y) > 1e-9 * sc for x, y in zip(va, vf)):
+                        corr(f"stage {z}: lp_values after a history differ from a fresh evaluation", vf[:6], va[:6])
+                        break
+            else:
+                if _all_optimal(obs) and obs["rank"] != fr["rank"]:
+                    corr("rank_ after a history differs from a fresh evaluation", fr["rank"], obs["rank"])
 
     if not _all_optimal(obs):
         # outside the quantifier unless the second solver says every program is feasible and bounded
@@ -758,6 +916,12 @@ def tags(case, obs):
             t.append("dup-columns:" + case["dupmode"] + ":twin-constraint-needed")
     if "zero_b" in case:
         t.append("zero-bound-on-max-criterion")
+    if "history" in case:
+        h = case["history"]
+        t.append("history:reused-b:" + h["b_as"] + (":with-None" if any(v is None for v in case["b"]) else ":full"))
+        t.append("history:%d-earlier-evaluations:%s-instance" % (len(h["prior"]), "same" if h["same_instance"] else "another"))
+        if any("err" in st or any(x != "Optimal" for x in st.get("status", [])) for st in obs.get("prior", [])):
+            t.append("history:an-earlier-evaluation-not-optimal")
     if case["objectives"].count(-1) == 1:
         t.append("exactly-one-min")
     if _is_int_partial(case):
